@@ -4,7 +4,7 @@
    SCBK parity factors).  The matrix M of the mapped number operators and their signs come from OpenFermion
    and are parameters. *)
 From Coq Require Import ZArith NArith List Bool Arith.
-From QPM Require Import Remap Reconstruct GF2 GF2Complete Mapper.
+From QPM Require Import Remap Reconstruct GF2 GF2Complete GF2Tri Mapper.
 Import ListNotations.
 
 (* inverse() returns a two-sided inverse (as maps on bit vectors) whenever the elimination ends with the
@@ -107,3 +107,31 @@ Example c13_example :
   gj_check M = Some [1; 3; 4; 15]%N /\ gj_ok M [1; 3; 4; 15]%N
   /\ state_mapper 4 [1; 3; 4; 15]%N 0 3 = 1%N /\ inv_state_mapper 4 4 M 0 1 = 3%N.
 Proof. split; [vm_compute; reflexivity|]. split; [apply gj_check_ok; vm_compute; reflexivity|]. vm_compute. split; reflexivity. Qed.
+
+(* Size-independent form: a unit lower-triangular matrix (row i has bit i and no bit above i - the number-operator
+   matrices of Jordan-Wigner (identity) and of Bravyi-Kitaev (parity sets of qubits <= i) at every size; checked on the
+   matrices read from the real objects up to 100 spin orbitals by corr_C13.py) has trivial kernel, so inverse()
+   succeeds and the mappers round-trip whatever the number of spin orbitals. *)
+Theorem gf2_inverse_succeeds_on_every_unit_lower_triangular_matrix : forall M,
+  unit_lowerb M = true ->
+  exists B, inverse M = Some B /\ gj_check M = Some B
+    /\ forall y, fits (length M) y -> mulv B (mulv M y) = y /\ mulv M (mulv B y) = y.
+Proof. intros M H. apply inverse_total_unit_lower. apply unit_lowerb_sound. exact H. Qed.
+Print Assumptions gf2_inverse_succeeds_on_every_unit_lower_triangular_matrix.
+
+Theorem mappers_round_trip_at_every_size : forall n M smask,
+  length M = n -> unit_lowerb M = true -> fits n smask ->
+  exists B, inverse M = Some B
+    /\ (forall occ, fits n occ -> inv_state_mapper n n M smask (state_mapper n B smask occ) = occ)
+    /\ (forall bits, fits n bits -> state_mapper n B smask (inv_state_mapper n n M smask bits) = bits)
+    /\ (forall occ i, fits n occ -> i < n -> number_readback M smask i (state_mapper n B smask occ) = N.testbit occ (N.of_nat i)).
+Proof.
+  intros n M smask Hn HU Hs. apply unit_lowerb_sound in HU.
+  apply mappers_round_trip_for_every_invertible_number_operator_matrix; auto.
+  - rewrite <- Hn. apply unit_lower_square. exact HU.
+  - rewrite <- Hn. apply unit_lower_kernel. exact HU.
+Qed.
+Print Assumptions mappers_round_trip_at_every_size.
+
+Example c13_unit_lower_example : unit_lowerb [1; 3; 4; 14; 16; 48; 64; 232]%N = true.
+Proof. vm_compute. reflexivity. Qed.
